@@ -166,7 +166,8 @@ def run(tier, seed):
         for m in modes:
             for nn in (False, True):
                 for gb in (False, True):
-                    if not thorough and ((nn or gb) and rnd.random() < 0.75 or (m != "sql" and rnd.random() < 0.4)):
+                    if (not thorough and ((nn or gb) and rnd.random() < 0.75 or (m != "sql" and rnd.random() < 0.4))) or \
+                            (thorough and m not in ("sql", "bigquery", "hql") and rnd.random() < 0.7):
                         continue
                     c = dict(ctor)
                     if nn:
